@@ -85,6 +85,11 @@ def examine(case):
             out.append(V('same-families', ['kind-changed'], {'s': s}, {'normal': n, 'kinds': [kinds(core), kinds(n)]}))
     for kind, v in case.get('variants', ()):
         if not codes.PAT_EVENT_CODE.match(v.strip()):
+            # a spelling that is NOT a code must be refused - also right after its valid twin was normalised
+            rv = call(athlib.normalize_event_code, v)
+            if not (rv[0] == 'exc' and rv[1] == 'ValueError'):
+                out.append(V('non-codes-refused', ['refusal-after-valid-twin', rv[1] if rv[0] == 'exc' else 'returned'],
+                             {'s': s, 'variants': [[kind, v]]}, rv[:2], 'ValueError'))
             continue
         rv = call(athlib.normalize_event_code, v)
         if rv != ('ret', n):
